@@ -1010,6 +1010,57 @@ def rule_d14(toks, log):
 
 
 # ---------------------------------------------------------------------------------------
+# D15: `X.iter().all(|w| *w == C)` on a word slice
+
+def rule_d15(toks, log):
+    """`X . iter ( ) . all ( | w | * w == C )` with X a plain place path (`id ( . id | . int )*`, real tokens only), `w` one
+    identifier used exactly as `* w`, C an integer literal or a single identifier ==> `__slice_all_eq ( & X , C )`.
+    Verus (this build) has no specification for `Iterator::all`.  The helper `__slice_all_eq(s: &[Word], c: Word) -> bool`
+    is NOT trusted: the unit has to provide it as an exec function with an index loop, its invariant and the contract
+    `ret == forall|k| 0 <= k < s.len() ==> s[k] == c` (lib/mod2_ring.rs), verified in the same run.  Trusted: the meaning
+    of `slice::Iter::all` with a pure closure (core, as for D1).  Any other shape is left untouched (Verus then rejects
+    `all`, as before)."""
+    out = list(toks)
+    i = 0
+    while i + 13 < len(out):
+        w = out[i:i + 14]
+        if not (_is(w[0], '.') and _is(w[1], 'iter') and _is(w[2], '(') and _is(w[3], ')') and _is(w[4], '.')
+                and _is(w[5], 'all') and _is(w[6], '(') and _is(w[7], '|') and w[8][0] == 'id' and _is(w[9], '|')
+                and _is(w[10], '*') and w[11] == w[8] and _is(w[12], '==')
+                and (w[13][0] in ('id', 'int', 'num', 'lit')) and not any(x[2] for x in w)):
+            i += 1
+            continue
+        if not (i + 14 < len(out) and _is(out[i + 14], ')') and not out[i + 14][2]):
+            i += 1
+            continue
+        # the receiver: walk back over `id ( . id | . int )*`
+        a = i
+        ok = False
+        while a - 1 >= 0 and not out[a - 1][2] and out[a - 1][0] in ('id', 'int', 'num', 'lit') \
+                and out[a - 1][1] not in ('if', 'while', 'match', 'return', 'in', 'let', 'mut', 'else'):
+            a -= 1
+            ok = out[a][0] == 'id'
+            if a - 1 >= 0 and _is(out[a - 1], '.') and not out[a - 1][2]:
+                a -= 1
+                ok = False
+                continue
+            break
+        if not ok or a == i:
+            i += 1
+            continue
+        if a - 1 >= 0 and out[a - 1][0] == 'p' and out[a - 1][1] in (')', ']', '?', '::'):
+            i += 1
+            continue                       # receiver is a longer postfix expression: not this rule's shape
+        recv = out[a:i]
+        new = toks_of('__slice_all_eq ( &', False) + recv + [T('p', ',')] + [w[13]] + [T('p', ')')]
+        log.append('D15 `%s` -> `__slice_all_eq(& %s, %s)` (helper verified in the unit)' % (
+            _txt(out[a:i + 15]), _txt(recv), w[13][1]))
+        out = out[:a] + new + out[i + 15:]
+        i = a + len(new)
+    return out
+
+
+# ---------------------------------------------------------------------------------------
 
 def lower(toks, marks, opts=None):
     """toks: [(kind,text)], marks: [bool]; returns ([(kind,text)], log)."""
@@ -1026,6 +1077,7 @@ def lower(toks, marks, opts=None):
     ts = rule_d12(ts, log)
     ts = rule_d13(ts, log)
     ts = rule_d14(ts, log)
+    ts = rule_d15(ts, log)
     ts = rule_d7(ts, log)
     ts = rule_d1(ts, log)
     ts = rule_d9(ts, log)
